@@ -4,5 +4,7 @@ CONSTANTS
   Fns = {"Println"}
   Shs = {"-", "toUpper"}
   ScopeAware = TRUE
+  LambdaParamsScoped = FALSE
+  BareReturnLambda2 = FALSE
 INVARIANTS TypeOK Confluent ImportSound Export
 PROPERTIES Stable Terminates
